@@ -1,5 +1,6 @@
 import Anysystem.Proofs.SimQueueThms
 import Anysystem.Proofs.SimNetThms
+import Anysystem.Proofs.SimStepThms
 /-!
 # C06 — Simulated time: delays, ordering, clocks and stepping are exact
 
@@ -18,5 +19,9 @@ namespace Anysystem
 #check @Sim.stepUntilTime_clock
 #check @Sim.send_copies
 #check @Sim.send_same_node
+/- run-level stepping: a `false` step means the queue is empty; `step_until_no_events` ends with an empty queue -/
+#check @Sim.step_false_events
+#check @Sim.stepUntilNoEvents_spec
+#check @Sim.stepUntilLocalMax_immediate
 
 end Anysystem
